@@ -204,7 +204,13 @@ where
                 #[cfg(feature = "detailed-trace")]
                 old_memo.has_value(),
             ) {
-                return ColdResult::Verified(if old_header.revisions.changed_at > revision {
+                // Always assume that a provisional value has changed (as in the re-execute arm
+                // below): a provisional memo that `validate_same_iteration` accepted carries the
+                // `changed_at` of the iteration so far (that of the fixpoint-initial memo in the
+                // first one), which says nothing about whether its value changed.
+                let changed =
+                    old_header.revisions.changed_at > revision || old_header.may_be_provisional();
+                return ColdResult::Verified(if changed {
                     VerifyResult::changed()
                 } else {
                     VerifyResult::unchanged_for_memo(&old_header.revisions)
